@@ -47,6 +47,18 @@ Theorem C03_create_after_zero_checked_crashes :
 Proof. exact create_after_zero_checked_crashes. Qed.
 Print Assumptions C03_create_after_zero_checked_crashes.
 
+(** [compute_anchor_edit_info] (run on every fix batch before [apply_fixes]) returns when no fix of
+    the batch is a "just source edit"; otherwise it can reach [unimplemented!()]. *)
+Theorem C03_compute_aei_total : forall fs m,
+  Forall (fun f => is_jse f = false) fs -> ok (compute_aei m fs).
+Proof. exact compute_aei_total. Qed.
+Print Assumptions C03_compute_aei_total.
+
+Theorem C03_compute_aei_unimplemented_reachable :
+  compute_aei [] aei_witness = Crash site_anchor_info_unimplemented.
+Proof. exact compute_aei_unimplemented_reachable. Qed.
+Print Assumptions C03_compute_aei_unimplemented_reachable.
+
 (** The fix loop adds no crash of its own ... *)
 Theorem C03_fix_loop_total : forall Tree version crawl apply fixmode all t,
   crawl_ok Tree crawl -> apply_ok Tree apply -> ok (lint_fix Tree version crawl apply fixmode all t).
